@@ -60,6 +60,19 @@ impl Recorder {
         self.ex.restore(&s);
         ev
     }
+    fn mark(&mut self, ev: &str) {
+        writeln!(self.w, "{}", json!({"i": 0, "scn": self.scn, "ev": ev, "a": {"op": ev}, "res": "ok", "code": 0, "err": "", "label": "", "failed_ix": -1, "ts": [0], "chg": {}})).unwrap();
+    }
+    /// recorded side branch: everything `f` does is recorded and judged, then undone (the trace carries
+    /// the same save / restore / drop markers a replayed model tree does)
+    pub fn fork(&mut self, f: &mut dyn FnMut(&mut Recorder)) {
+        let s = self.ex.snapshot();
+        self.mark("save");
+        f(self);
+        self.ex.restore(&s);
+        self.mark("restore");
+        self.mark("drop");
+    }
     pub fn finish(mut self) {
         self.w.flush().unwrap();
     }
@@ -527,6 +540,18 @@ fn risk_driver(out: &str, seed: u64, n: u64) {
 // ------------------------------------------------------------------------------------------------
 // liquidation / bankruptcy driver
 // ------------------------------------------------------------------------------------------------
+/// the account's deposit in `bank` in native units (shares x share value, as the program computes it)
+fn asset_amount(r: &mut Recorder, acct: &str, bank: &str) -> Option<fixed::types::I80F48> {
+    use fixed::types::I80F48;
+    let bk = r.ex.env.k(bank);
+    let b = r.ex.bank(bank).ok()?;
+    let a = r.ex.macct(acct).ok()?;
+    let bal = a.lending_account.balances.iter().find(|x| x.active != 0 && x.bank_pk == bk)?;
+    let sh: I80F48 = bal.asset_shares.into();
+    let sv: I80F48 = b.asset_share_value.into();
+    sh.checked_mul(sv)
+}
+
 fn set_price(spec: &BankSpec, kind_fixed: bool, price: i64, conf: i64) -> Value {
     if kind_fixed {
         json!({"op":"set_fixed_price","bank":spec.name,"price":format!("{}/{}", price, 10i64.pow((-spec.expo) as u32))})
@@ -574,7 +599,8 @@ fn liq_driver(out: &str, seed: u64, n: u64) {
         r.begin(&extra);
         // borrow to (a fraction of) the limit
         let mkb = |x: u64| json!({"op":"borrow","acct":"A1","bank":"D1","amount":x});
-        let b = search_boundary(&mut r, &mkb, 2_000_000_000_000_000_000, "RiskEngineInitRejected");
+        // (upper end of the search: what the bank can lend at all; beyond it the refusal is about liquidity, not health)
+        let b = search_boundary(&mut r, &mkb, (lp_amt / 10 * 9).max(2), "RiskEngineInitRejected");
         let (lo, _hi) = match b {
             Some(x) if x.0 > 0 => x,
             _ => {
@@ -588,6 +614,13 @@ fn liq_driver(out: &str, seed: u64, n: u64) {
         };
         if lo > 0 {
             r.act(mkb(lo));
+        }
+        // sometimes the collateral bank has a borrower too, so that its share value moves and balances stop being whole units
+        let frac_collateral = rng.gen_bool(0.5);
+        if frac_collateral {
+            r.act(json!({"op":"borrow","acct":"LP","bank":"C1","amount":(camt / 3).max(1)}));
+            r.act(json!({"op":"tick","dt": *pick(&mut rng, &[86_400i64, 2_592_000, 31_536_000])}));
+            r.act(json!({"op":"accrue","bank":"C1"}));
         }
         if kill_path {
             // long neglect at high utilization: fees make debt outgrow deposits
@@ -663,6 +696,20 @@ fn liq_driver(out: &str, seed: u64, n: u64) {
             r.act(mkl(1));
         }
         r.act(json!({"op":"pulse_health","acct":"A1"}));
+        // the exact over-liquidation boundary: seize floor(balance), ceil(balance), ceil(balance)+1 of whatever collateral is left
+        // (interest is brought up to now first so that the balance the handler sees is the one computed here)
+        r.act(json!({"op":"accrue","bank":"C1"}));
+        if let Some(bal) = asset_amount(&mut r, "A1", "C1") {
+            let fl: u64 = bal.floor().to_num::<u128>().min(u64::MAX as u128) as u64;
+            let ce: u64 = bal.ceil().to_num::<u128>().min(u64::MAX as u128) as u64;
+            for x in [ce.saturating_add(1), ce, fl] {
+                if x > 0 {
+                    r.fork(&mut |r: &mut Recorder| {
+                        r.act(mkl(x));
+                    });
+                }
+            }
+        }
         // bankruptcy path: collateral becomes worthless
         if bk_path {
             r.act(set_price(&c1, c1_fixed, 1, 0));
